@@ -62,6 +62,11 @@ Definition rout_same (a b : rout O) : bool :=
       (c =? c') && fsame O s s' && (sc =? sc')
       && (if sc =? 0 then forallb (fun q => fsame O q (fzero O)) qs
           else forallb (fun q => fwithin O q mn mx) qs)
+  | OAdd _ _, OAck _ => true
+  | OSnap _ c s sc mn mx _, ORen _ c' s' qs =>
+      (c =? c') && fsame O s s'
+      && (if sc =? 0 then forallb (fun q => fsame O q (fzero O)) qs
+          else forallb (fun q => fwithin O q mn mx) qs)
   | _, _ => false
   end.
 
@@ -156,5 +161,7 @@ Definition oroll (l : list (rout PF)) : out := ORoll PF l.
 Definition opanic : out := OPanic PF.
 Definition cquant (q : float) (fc fd : list N) : case := CQuant PF q fc fd.
 Definition oquant (v : float) (l fc fd : list N) : out := OQuant PF v l fc fd.
+Definition oack : rout PF := OAck PF.
+Definition oren (c : N) (s : float) (qs : list float) : rout PF := ORen PF c s qs.
 Definition oadd (c : N) : rout PF := OAdd PF c.
 Definition osnap (c : N) (s : float) (sc : N) (mn mx : float) (qs : list float) : rout PF := OSnap PF c s sc mn mx qs.
